@@ -206,7 +206,15 @@ func (w *W) settleRelay() error {
 		}
 		// every relay goroutine is parked on a pending dial or on a live idle connection, and every
 		// push whose target has answered has gone through AddRtmpPushSession
-		have, want := pend+len(live)+w.PsExpected, gor+int(atomic.LoadInt64(&w.ExtraGor))
+		ps := w.PsExpected
+		if w.PsAuto {
+			// a session the server ended by itself: no group holds it any more AND its goroutine is gone
+			// (the harness still expects it; it learns from the group's slot afterwards)
+			if n := logic.VerifPsCount(w.SM); n < ps && pend+len(live)+n == gor+int(atomic.LoadInt64(&w.ExtraGor)) {
+				ps = n
+			}
+		}
+		have, want := pend+len(live)+ps, gor+int(atomic.LoadInt64(&w.ExtraGor))
 		if (have == want || (w.RelaxedRelay && have > want)) && (pushAdds == startedPush || w.RelaxedRelay) {
 			// the network must still be quiet (a goroutine may have moved between the two looks) and no
 			// origin may have unread output (a dial accepted after this round's pump)
